@@ -222,6 +222,11 @@ func genC26(r *sim.Rand, tier string) *sim.Case {
 				}
 				s, e = pkey(a), pkey(b)
 			}
+			if rel != 11 && len(e) > 0 && bytes.Compare(s, e) >= 0 {
+				// clipped at the edge of the grid: take a well-formed range instead
+				a := r.Intn(pdGrid - 1)
+				s, e = pkey(a), pkey(a+1+r.Intn(pdGrid-1-a))
+			}
 			dcls := r.Pick(0, 0, 1, 1, 2, 3, 3, 4, 5, 6, 7)
 			peers := 1 + r.Intn(3)
 			c.Ops = append(c.Ops, sim.Op{K: "hb", A: int64(id), B: int64(peers), D: int64(dcls), S: encRange(s, e)})
@@ -480,6 +485,8 @@ func execC26(t *testing.T, c *sim.Case) *sim.Result {
 					res.Violate(i, "hb_accepted_stale", sig, "heartbeat %s accepted although region %d is known with epoch %d.%d", pdFmt(meta), id, m.regions[own].Epoch.Version, m.regions[own].Epoch.ConfVersion)
 				case got && overlaps:
 					res.Violate(i, "hb_accepted_overlap", sig, "heartbeat %s accepted although it overlaps known region %s", pdFmt(meta), pdFmt(other))
+				case !got && rel == "degenerate":
+					res.Probes["hb_degenerate_rejected"]++ // an empty or inverted range is malformed input: refusing it is always fine
 				case !got && st != "stale" && !overlaps:
 					res.Violate(i, "hb_rejected_valid", sig, "heartbeat %s rejected (%v) although it is not stale and overlaps none of: %s", pdFmt(meta), err, pdList(m.regions))
 				}
